@@ -38,6 +38,25 @@ REPO = os.environ.get("VERIF_REPO", "/repo")
 EXTRACT_BIN = os.path.join(VERIF, "extract", "target", "release", "vextract")
 
 
+def ghost(text):
+    """spliced proof script (asserts, lemma calls, ghost snapshots): marked so that a failure located inside it can be told
+    from a failure of a contract clause (postcondition, invariant, precondition of a callee in the extracted code)"""
+    return "// @ghost{\n" + text + "\n// @ghost}"
+
+
+def ghost_regions(text):
+    """-> [(first line, last line)] of the marked regions in a generated file (1-based)"""
+    out, start = [], None
+    for n, ln in enumerate(text.split("\n"), 1):
+        t = ln.strip()
+        if t == "// @ghost{":
+            start = n
+        elif t == "// @ghost}" and start is not None:
+            out.append((start, n))
+            start = None
+    return out
+
+
 class Undecided(Exception):
     """The obligation could not be posed (lost anchor, unsupported construct)."""
 
@@ -763,13 +782,13 @@ class Generator:
                 raise Undecided("tailproof: the body has no tail expression")
             ts, te = it["tail"]
             if spec.pretailproof is not None:
-                common.append((ts, ts, "proof {\n" + spec.pretailproof + "\n        }\n        "))
+                common.append((ts, ts, ghost("proof {\n" + spec.pretailproof + "\n        }") + "\n        "))
             # the tail expression takes its type from the return type: keep that for the binding
             rt_ann = ""
             if sig["ret"] is not None:
                 rt_ann = ": " + _sub_text(src[sig["ret"][0]:sig["ret"][1]].decode(), spec.subs, [], site)
             common.append((ts, ts, "let __res%s = " % rt_ann))
-            common.append((te, te, ";\n        proof {\n" + spec.tailproof + "\n        }\n        __res"))
+            common.append((te, te, ";\n" + ghost("        proof {\n" + spec.tailproof + "\n        }") + "\n        __res"))
             self.log.append({"rule": "R-TAILBIND", "site": site})
         # R-OPTCOMB: `E.map(|p| B)` / `C.then(|| B)` / `E.map_or(D, |p| B)` with the closure inlined, as std defines them
         # (Verus rejects closures that capture a mutable reference; the match / if form is what the combinator does)
@@ -782,7 +801,7 @@ class Generator:
                     return c, call
             raise Undecided("optcomb: closure %d is not the last argument of a method call" % n)
         if spec.bodyghost is not None and not spec.external:
-            common.append((it["body"][0] + 1, it["body"][0] + 1, "\n" + spec.bodyghost + "\n"))
+            common.append((it["body"][0] + 1, it["body"][0] + 1, "\n" + ghost(spec.bodyghost) + "\n"))
         # R-RETAIN: `X.retain(|p| BODY)` => the predicate evaluated on every item in order, then the flagged items kept
         for n, (cont, inv) in spec.retainloops.items():
             c, call = clos_call(n)
@@ -793,7 +812,7 @@ class Generator:
             # the parameter may be a pattern (`|(tag, _)|`): it is bound by the `let` that hands the item to the body
             pv = src[c["params"][0]["span"][0]:c["params"][0]["span"][1]].decode()
             pre = ("{ let mut __mask = RetainMask::new(); let mut __k: usize = 0; while __k < %s.len()\n%s\n{ let %s = %s.nth_ref(__k); let __b: bool = " % (cont, inv, pv, cont))
-            suf = (";\n proof {\n%s\n } __mask.push(__b); __k += 1; }\n %s.retain_mask(__mask); }" % (spec.retainproofs.get(n, ""), cont))
+            suf = (";\n%s\n __mask.push(__b); __k += 1; }\n %s.retain_mask(__mask); }" % (ghost(" proof {\n%s\n }" % spec.retainproofs.get(n, "")), cont))
             common.append((call["span"][0], c["body"][0], pre))
             common.append((c["body"][1], call["span"][1], suf))
             self.log.append({"rule": "R-RETAIN", "site": site, "what": "`%s.retain(closure %d)` => evaluate the predicate on every item in order, then retain_mask" % (cont, n)})
@@ -807,7 +826,7 @@ class Generator:
             e = src[into["recv"][0]:into["recv"][1]].decode()
             pv = c["params"][0]["ident"]
             pre = ("{ let mut __it = %s.into_iter(); let mut __out = Vector::new(); let mut __k: usize = 0; while !__it.is_done()\n%s\n{ let %s = __it.take_next(); let __r = " % (e, inv, pv))
-            suf = (";\n proof {\n%s\n } match __r { Some(__x) => { __out.push_back(__x); } None => {} } __k += 1; }\n __out }" % spec.fmloopproofs.get(n, ""))
+            suf = (";\n%s\n match __r { Some(__x) => { __out.push_back(__x); } None => {} } __k += 1; }\n __out }" % ghost(" proof {\n%s\n }" % spec.fmloopproofs.get(n, "")))
             common.append((coll["span"][0], c["body"][0], pre))
             common.append((c["body"][1], coll["span"][1], suf))
             self.log.append({"rule": "R-FMLOOP", "site": site, "what": "`%s.into_iter().filter_map(closure %d).collect()` => loop over the items in order" % (e, n)})
@@ -922,7 +941,7 @@ class Generator:
             hit = hits[occ_k - 1]
             boff = len(btxt[:hit.start() if where == "before" else hit.end()].encode())
             pos = arm["body"][0] + boff
-            common.append((pos, pos, "\n" + text + "\n"))
+            common.append((pos, pos, "\n" + ghost(text) + "\n"))
         # R-CLOSPAT: a `&ident` closure parameter becomes a typed variable plus `let ident = *var;` (Verus wants plain variables)
         for (n, k), (var, ty) in spec.closparams.items():
             if n < 1 or n > len(it["closures"]) or k >= len(it["closures"][n - 1]["params"]):
@@ -1180,6 +1199,7 @@ def assumption_scan(text):
 def generate(unit_path):
     g = Generator(unit_path)
     text = g.run()
+    g.ghost_regions = ghost_regions(text)
     ids = [o["id"] for o in g.obligations]
     dup = sorted(set(i for i in ids if ids.count(i) > 1))
     if dup:
